@@ -16,8 +16,9 @@
                         items are decoded as TTuple [k; v])
      env_depth E        the largest tdepth of a type of env_field_tys E
      fuel_bound E t len = tdepth t + (len + 1) * S (env_depth E)
-     big                = N.to_nat (2 ^ 64), never evaluated; an item count is an
-                        `as_usize`, hence below `big`
+     big                = N.to_nat (2 ^ 31) (`big_eq`), never evaluated; an item count is the
+                        `as_usize` of a non-negative i32 read by `read_var_i32` (negative
+                        counts are rejected), hence below `big`
 
    Main results
 
@@ -29,7 +30,8 @@
      decA_terminates_prompt        fuel_bound E t (unread bytes) is enough
      decA_terminates_prompt_ge     ... and so is any larger fuel
      decodeA_terminates_prompt     the entry point
-     decA_terminates_bound         without the zero-width restriction, fuel_bound + 2^64
+     decA_terminates_bound         without the zero-width restriction, fuel_bound + 2^31
+     decodeA_terminates_bound      the entry point
      decA_terminates               hence: exists f
      zero_width_needs_count_many_steps   sharpness: Vec<()> from 5 bytes needs > 1000 fuel
 
@@ -47,13 +49,14 @@
      - an item of a sequence whose element type is not zero-width consumes a byte, so the
        item loop stops after at most |cur| + 1 rounds whatever the decoded count says
        (`dec_known_g1`); the unknown-size loop reads a tag byte per round (`dec_unknown_g`);
-     - if the element type is zero-width the loop runs `count` times, count < 2^64
-       (`dec_known_g0`).
+     - if the element type is zero-width the loop runs `count` times, 0 <= count < 2^31
+       (`dec_known_g0`, `read_var_i32_range`).
 
    The well-formedness hypotheses of the statements are NOT used (kept for uniformity). *)
 From Coq Require Import NArith ZArith List Lia Bool Arith.
 From Coq Require Import ZifyBool ZifyN ZifyNat.
-From Desert Require Import Bits Outcome IO IOProofs Types Codec CodecWf TotalProofs MonoProofs.
+From Desert Require Import Bits Outcome IO IOProofs VarintProofs Types Codec CodecWf TotalProofs
+  MonoProofs.
 Import ListNotations.
 Open Scope N_scope.
 Local Open Scope nat_scope.
@@ -109,13 +112,66 @@ Definition env_depth (E : env) : nat := list_max (map tdepth (env_field_tys E)).
 Definition fuel_bound (E : env) (t : ty) (len : nat) : nat :=
   tdepth t + (len + 1) * S (env_depth E).
 
-(* an upper bound of every item count (`as_usize`); NEVER evaluated *)
-Definition big : nat := N.to_nat (2 ^ 64).
+(* an upper bound of every item count: the count is the `as_usize` of the i32 read by
+   `read_var_i32`, and the item loop of known length is only entered when that i32 is
+   non-negative, so the count is below 2^31.  NEVER evaluated (it is a unary number) *)
+Definition big : nat := N.to_nat (2 ^ 31).
 
-Lemma as_usize_lt_big z : N.to_nat (as_usize z) < big.
-Proof. unfold as_usize, big. lia. Qed.
+Lemma big_eq : big = N.to_nat (2 ^ 31).
+Proof. reflexivity. Qed.
+
+Lemma as_usize_lt_big z : (0 <= z < 2 ^ 31)%Z -> N.to_nat (as_usize z) < big.
+Proof. intros Hz. unfold as_usize, big. lia. Qed.
 
 Global Opaque big.
+
+(* the range of a var-int, for every source: read_var_u32 answers a u32, read_var_i32 an i32 *)
+Lemma N_lor_lt a b n : (a < 2 ^ n -> b < 2 ^ n -> N.lor a b < 2 ^ n)%N.
+Proof.
+  intros Ha Hb. destruct (N.eq_dec (N.lor a b) 0) as [E | E]; [rewrite E; lia|].
+  apply N.log2_lt_pow2; [lia|]. rewrite N.log2_lor.
+  destruct (N.eq_dec a 0) as [-> | Ea]; destruct (N.eq_dec b 0) as [-> | Eb].
+  - exfalso; apply E; reflexivity.
+  - rewrite N.max_r by (cbn; lia). apply N.log2_lt_pow2; lia.
+  - rewrite N.max_l by (cbn; lia). apply N.log2_lt_pow2; lia.
+  - apply N.max_lub_lt; apply N.log2_lt_pow2; lia.
+Qed.
+
+Lemma read_var_u32_range {S} (R : reader S) s r s' :
+  read_var_u32 R s = Ok (r, s') -> (r < 2 ^ 32)%N.
+Proof.
+  assert (H7 : forall b, (N.land b 127 < 2 ^ 32)%N).
+  { intros b. rewrite N_land_127. change (2 ^ 32)%N with 4294967296%N. lia. }
+  assert (Hs : forall b k, (k <= 21)%N -> (N.shiftl (N.land b 127) k < 2 ^ 32)%N).
+  { intros b k Hk. rewrite N_land_127, N_shiftl_mul.
+    assert (b mod 128 < 2 ^ 7)%N by (change (2 ^ 7)%N with 128%N; lia).
+    assert (2 ^ k <= 2 ^ 21)%N by (apply N.pow_le_mono_r; lia).
+    change (2 ^ 32)%N with (2 ^ 7 * (16 * 2 ^ 21))%N. nia. }
+  unfold read_var_u32.
+  destruct (r_u8 R s) as [[b1 s1] | | | ]; cbn [bind]; try discriminate.
+  destruct (N.land b1 128 =? 0)%N.
+  { intros [= <- _]. apply H7. }
+  destruct (r_u8 R s1) as [[b2 s2] | | | ]; cbn [bind]; try discriminate.
+  destruct (N.land b2 128 =? 0)%N.
+  { intros [= <- _]. apply N_lor_lt; [apply H7 | apply Hs; lia]. }
+  destruct (r_u8 R s2) as [[b3 s3] | | | ]; cbn [bind]; try discriminate.
+  destruct (N.land b3 128 =? 0)%N.
+  { intros [= <- _]. repeat apply N_lor_lt; try apply H7; apply Hs; lia. }
+  destruct (r_u8 R s3) as [[b4 s4] | | | ]; cbn [bind]; try discriminate.
+  destruct (N.land b4 128 =? 0)%N.
+  { intros [= <- _]. repeat apply N_lor_lt; try apply H7; apply Hs; lia. }
+  destruct (r_u8 R s4) as [[b5 s5] | | | ]; cbn [bind]; try discriminate.
+  intros [= <- _]. repeat apply N_lor_lt; try apply H7; try (apply Hs; lia).
+  apply N.mod_lt. discriminate.
+Qed.
+
+Lemma read_var_i32_range {S} (R : reader S) s z s' :
+  read_var_i32 R s = Ok (z, s') -> (- 2 ^ 31 <= z < 2 ^ 31)%Z.
+Proof.
+  unfold read_var_i32.
+  destruct (read_var_u32 R s) as [[r s1] | | | ] eqn:Hr; cbn [bind]; try discriminate.
+  intros [= <- _]. apply zigzag_unzigzag. eapply read_var_u32_range; exact Hr.
+Qed.
 
 (* ------------------------------------------------------------------ *)
 (* arithmetic of the bound *)
@@ -199,7 +255,7 @@ Proof.
   - apply IH in H. destruct H as [H1 H2]. split; [exact H1 | right; exact H2].
 Qed.
 
-(* "b holds, or the fuel has 2^64 to spare": the two modes of the main lemma *)
+(* "b holds, or the fuel has 2^31 to spare": the two modes of the main lemma *)
 Definition okz (K : nat) (b : bool) : Prop := b = true \/ big <= K.
 
 Lemma okz_andb K a b : okz K (a && b) -> okz K a /\ okz K b.
@@ -504,7 +560,7 @@ Lemma dec_seq_items_g nf (d : astate -> outcome (val * astate)) kd fuel s :
 Proof.
   intros Hd Hf Hk. unfold dec_seq_items. change (d_rd a_ops) with a_reader.
   pose proof (read_var_i32_g nf 1 s (le_n 1)) as H.
-  destruct (read_var_i32 a_reader s) as [[n s1] | e | p | ]; unfold gP in H; try exact I.
+  destruct (read_var_i32 a_reader s) as [[n s1] | e | p | ] eqn:Hrd; unfold gP in H; try exact I.
   - destruct H as (_ & Hst & Hl).
     eapply (gP_from _ 1 0); [exact Hst | exact Hl | | lia].
     destruct (n =? -1)%Z.
@@ -512,12 +568,15 @@ Proof.
       * intros s2 H2. eapply g_le; [apply Hd; exact H2 | lia].
       * lia.
       * intros Hnf. specialize (Hf Hnf). lia.
-    + destruct (n <? 0)%Z; [exact I |].
+    + destruct (n <? 0)%Z eqn:Hneg; [exact I |].
       destruct Hk as [Hk | [Hk Hbig]]; subst kd.
       * apply dec_known_g1 with (L := len s); [exact Hd | lia |].
         intros Hnf. specialize (Hf Hnf). lia.
       * apply dec_known_g0 with (L := len s); [exact Hd | lia |].
-        intros Hnf. specialize (Hbig Hnf). pose proof (as_usize_lt_big n). lia.
+        intros Hnf. specialize (Hbig Hnf).
+        pose proof (read_var_i32_range a_reader s n s1 Hrd) as Hrg.
+        assert (Hn : (0 <= n < 2 ^ 31)%Z) by lia.
+        pose proof (as_usize_lt_big n Hn). lia.
   - exact H.
 Qed.
 
@@ -754,7 +813,7 @@ Qed.
 
 (* nf = false: a frame/consumption statement for every fuel.
    nf = true:  no Fuel as soon as  tdepth t + G E |cur| + K <= fuel, where either K is
-               arbitrary and no sequence has zero-width elements, or K >= 2^64. *)
+               arbitrary and no sequence has zero-width elements, or K >= 2^31. *)
 Lemma dec_g nf E K :
   okz K (nzw_env E) ->
   forall f t s,
@@ -920,7 +979,8 @@ Proof.
   rewrite (decodeA_mono _ f E t bs st _ Hf eq_refl H). exact H.
 Qed.
 
-(* ---- without the zero-width restriction: the decoded count (< 2^64) governs ---- *)
+(* ---- without the zero-width restriction: the decoded count (a non-negative i32, < 2^31)
+   governs ---- *)
 Theorem decA_terminates_bound : forall E t s f,
   fuel_bound E t (length (a_cur s)) + big <= f -> dec a_ops f E t s <> Fuel.
 Proof.
@@ -928,6 +988,17 @@ Proof.
   apply (gP_nofuel (kw t) (fun _ => True) _ s).
   apply (dec_g true E big (or_intror (le_n _)) f t s (or_intror (le_n _))).
   intros _. rewrite fuel_bound_eq in Hf. fold (len s) in Hf. lia.
+Qed.
+
+(* and for the top-level entry point *)
+Theorem decodeA_terminates_bound : forall E t bs st f,
+  (fuel_bound E t (length bs) + big <= f)%nat -> decodeA f E t bs st <> Fuel.
+Proof.
+  intros E t bs st f Hf. unfold decodeA.
+  pose proof (decA_terminates_bound E t (mkA bs [] st) f) as H. cbn [a_cur] in H.
+  specialize (H Hf).
+  destruct (dec a_ops f E t (mkA bs [] st)) as [[v s'] | e | p | ];
+    cbn [bind]; [discriminate | discriminate | discriminate | congruence].
 Qed.
 
 Theorem decA_terminates : forall E t s,
@@ -987,3 +1058,4 @@ Print Assumptions decA_terminates_bound.
 Print Assumptions decA_terminates.
 Print Assumptions decodeA_terminates.
 Print Assumptions zero_width_needs_count_many_steps.
+Print Assumptions decodeA_terminates_bound.
